@@ -27,6 +27,14 @@ def badObs {α} (why : String) : Except Err α := .error (.badObs why)
 
 def dedup (l : List Id) : List Id := l.foldl (fun acc x => if acc.contains x then acc else acc ++ [x]) []
 
+/-- look every id up; `none` if one is unknown -/
+def lookupAll {α} (f : Id → Option α) : List Id → Option (List α)
+  | [] => some []
+  | i :: r =>
+    match f i, lookupAll f r with
+    | some a, some rest => some (a :: rest)
+    | _, _ => none
+
 def nodupIds : List Id → Bool
   | [] => true
   | x :: r => !r.contains x && nodupIds r
@@ -195,11 +203,12 @@ def sortedByAttemptAt : List Delivery → Bool
   | [_] => true
   | a :: b :: r => decide (a.attemptAt ≤ b.attemptAt) && sortedByAttemptAt (b :: r)
 
-/-- is `cands` an allowed answer of `… ORDER BY attempt_at LIMIT max` over `elig`? -/
-def candsOk (elig cands : List Delivery) (max : Nat) : Bool :=
+/-- is `cands` (the rows the observed ids name) an allowed answer of
+    `… WHERE eligible ORDER BY attempt_at LIMIT max`?  `elig` is the list of all eligible rows. -/
+def candsOk (isElig : Delivery → Bool) (elig cands : List Delivery) (max : Nat) : Bool :=
   cands.length == min max elig.length &&
   nodupIds (cands.map (·.id)) &&
-  cands.all (fun c => elig.any (·.id == c.id)) &&
+  cands.all isElig &&
   sortedByAttemptAt cands &&
   elig.all (fun e => cands.any (·.id == e.id) || cands.all (fun c => decide (c.attemptAt ≤ e.attemptAt)))
 
@@ -292,10 +301,10 @@ def pull (db : Db) (now : Time) (subName : String) (max maxBytes : Nat) (strict 
   | none => .error .notFound
   | some s =>
     let db0 := refreshExpiry db s now
-    match obs.cands.mapM (fun i => db0.delById i) with
+    match lookupAll db0.delById obs.cands with
     | none => badObs "candidate id unknown"
     | some cands =>
-      if !candsOk (db0.dels.filter (db0.eligible s now)) cands max then
+      if !candsOk (db0.eligible s now) (db0.dels.filter (db0.eligible s now)) cands max then
         badObs "candidate list not an allowed query answer"
       else if cands.isEmpty then
         -- nothing deliverable: wait for the timeout, then `applyResults(nil)` refreshes the expiry
@@ -383,11 +392,11 @@ def sweepCand (db : Db) (now : Time) (d : Delivery) : Bool :=
         | some n, some _ => decide (0 < n) && decide (n ≤ (d.attempts : Int))
         | _, _ => false
 
-/-- is `victims` an allowed answer of `… LIMIT max` over the rows satisfying `p`? -/
-def limitOk {α} (rows : List α) (key : α → Id) (p : α → Bool) (victims : List Id) (max : Nat) : Bool :=
-  let cands := rows.filter p
-  nodupIds victims && victims.length == min max cands.length &&
-    victims.all (fun v => cands.any (fun c => key c == v))
+/-- is `victims` an allowed answer of `SELECT id … WHERE p LIMIT max`?  Every victim must name
+    (by primary-key lookup) a row satisfying `p`; `rows` is the whole table (for the count). -/
+def limitOk {α} (rows : List α) (lookup : Id → Option α) (p : α → Bool) (victims : List Id) (max : Nat) : Bool :=
+  nodupIds victims && victims.length == min max (rows.filter p).length &&
+    victims.all (fun v => match lookup v with | some r => p r | none => false)
 
 def sweepLoop (now : Time) (fwds : List (Id × List Fwd)) :
     List Delivery → Db → List Id → Except Err (Db × List Id)
@@ -402,9 +411,9 @@ def sweepLoop (now : Time) (fwds : List (Id × List Fwd)) :
 
 def dlSweep (db : Db) (now : Time) (max : Nat) (victims : List Id) (fwds : List (Id × List Fwd)) :
     Except Err (TxOut Nat) :=
-  if !limitOk db.dels (·.id) (sweepCand db now) victims max then badObs "sweep victims not allowed"
+  if !limitOk db.dels db.delById (sweepCand db now) victims max then badObs "sweep victims not allowed"
   else
-    match victims.mapM db.delById with
+    match lookupAll db.delById victims with
     | none => badObs "sweep victim unknown"
     | some rows =>
       match sweepLoop now fwds rows db [] with
@@ -609,7 +618,7 @@ def setDelay (db : Db) (name : String) (d : Int) : Except Err (TxOut Unit) :=
 /-- `DeleteExpiredSubscriptions` -/
 def expireSubs (db : Db) (now : Time) (max : Nat) (victims : List Id) : Except Err (TxOut Nat) :=
   let cand : Sub → Bool := fun s => decide (s.expiresAt < now) && s.live
-  if !limitOk db.subs (·.id) cand victims max then badObs "expiry victims not allowed"
+  if !limitOk db.subs db.subById cand victims max then badObs "expiry victims not allowed"
   else
     let subs' := updateWhere (fun s => victims.contains s.id) (fun s => { s with deletedAt := some now }) db.subs
     .ok { db := { db with subs := subs' }, wakes := victims, val := victims.length }
@@ -625,12 +634,12 @@ def pruneCompletedDeliveries (db : Db) (now : Time) (minAge : Int) (max : Nat) (
     Except Err (TxOut Nat) :=
   let cand : Delivery → Bool := fun d =>
     match d.completedAt with | some c => decide (c ≤ now - minAge) | none => false
-  if !limitOk db.dels (·.id) cand victims max then badObs "prune victims not allowed"
+  if !limitOk db.dels db.delById cand victims max then badObs "prune victims not allowed"
   else .ok { db := deleteDeliveries db victims, wakes := [], val := victims.length }
 
 def pruneExpiredDeliveries (db : Db) (now : Time) (max : Nat) (victims : List Id) : Except Err (TxOut Nat) :=
   let cand : Delivery → Bool := fun d => decide (d.expiresAt < now)
-  if !limitOk db.dels (·.id) cand victims max then badObs "prune victims not allowed"
+  if !limitOk db.dels db.delById cand victims max then badObs "prune victims not allowed"
   else
     let ordered := (db.subs.filter fun s =>
       s.ordered && db.dels.any fun d => d.subId == s.id && victims.contains d.id).map (·.id)
@@ -640,7 +649,7 @@ def pruneCompletedMessages (db : Db) (now : Time) (minAge : Int) (max : Nat) (vi
     Except Err (TxOut Nat) :=
   let cand : Msg → Bool := fun m =>
     decide (m.publishedAt ≤ now - minAge) && !db.dels.any (·.msgId == m.id)
-  if !limitOk db.msgs (·.id) cand victims max then badObs "prune victims not allowed"
+  if !limitOk db.msgs db.msgById cand victims max then badObs "prune victims not allowed"
   else .ok { db := { db with msgs := db.msgs.filter fun m => !victims.contains m.id },
              wakes := [], val := victims.length }
 
@@ -650,14 +659,14 @@ def pruneDeletedSubDeliveries (db : Db) (now : Time) (minAge : Int) (max : Nat) 
     match (db.subById d.subId).bind (·.deletedAt) with
     | some t => decide (t ≤ now - minAge)
     | none => false
-  if !limitOk db.dels (·.id) cand victims max then badObs "prune victims not allowed"
+  if !limitOk db.dels db.delById cand victims max then badObs "prune victims not allowed"
   else .ok { db := deleteDeliveries db victims, wakes := [], val := victims.length }
 
 def pruneDeletedSubs (db : Db) (now : Time) (minAge : Int) (max : Nat) (victims : List Id) : Except Err (TxOut Nat) :=
   let cand : Sub → Bool := fun s =>
     (match s.deletedAt with | some t => decide (t ≤ now - minAge) | none => false) &&
       !db.dels.any (·.subId == s.id)
-  if !limitOk db.subs (·.id) cand victims max then badObs "prune victims not allowed"
+  if !limitOk db.subs db.subById cand victims max then badObs "prune victims not allowed"
   else .ok { db := { db with subs := db.subs.filter fun s => !victims.contains s.id },
              wakes := [], val := victims.length }
 
@@ -667,7 +676,7 @@ def pruneDeletedTopics (db : Db) (now : Time) (minAge : Int) (max : Nat) (victim
   let cand : Topic → Bool := fun t =>
     (match t.deletedAt with | some d => decide (d ≤ now - minAge) | none => false) &&
       !db.subs.any (·.topicId == t.id)
-  if !limitOk db.topics (·.id) cand victims max then badObs "prune victims not allowed"
+  if !limitOk db.topics db.topicById cand victims max then badObs "prune victims not allowed"
   else if db.msgs.any (fun m => victims.contains m.topicId) ||
           db.snaps.any (fun sn => victims.contains sn.topicId) then .error .fk
   else
